@@ -22,11 +22,12 @@ def run(tier: str) -> int:
     chk.add_traces(recs, rejects)
     # EXTENSION beyond C20 (the play-field renderer that visualises these patterns): FieldMC is model-checked (rectangles of
     # different columns are disjoint; with a lead of two hit heights every hit lies inside the canvas; the sanity configuration
-    # without the lead must be violated), every chart x configuration of the model is rendered with PlayField + PFDrawNotes
+    # without the lead must be violated), every chart x configuration of the model is rendered with PlayField + PFDrawNotes,
+    # + PFDrawBeatLines and + PFDrawColumnLines (each alone)
     # and FieldTrace judges the pixels; disagreements are observations
     from harness.drivers import fieldx
     fm = run_tlc("FieldMC", f"FieldMC_{tier}", workers=4, timeout=3000)
-    chk.add_model(f"FieldMC_{tier}", fm, "EXTENSION: PlayField geometry (ColumnsDisjoint, HitsInside)")
+    chk.add_model(f"FieldMC_{tier}", fm, "EXTENSION: PlayField geometry (ColumnsDisjoint, HitsInside, LinesInside, LinesNested, HitsRestOnLines, GapsAvoidNotes)")
     if run_tlc("FieldMC", "FieldMC_sanity", workers=1, timeout=600).ok:
         chk.model_violations.append("vacuity: FieldMC_sanity (no lead) was expected to violate HitsInside")
     fs = [p for p in fm.prints if isinstance(p, dict) and p.get("kind") == "field"]
